@@ -277,4 +277,3 @@ func ckksHistoryLeaf(c *engine.Chooser, scName string, spec circ.CKKSSpec, bc ba
 	}
 	c.Outcome("history", desc)
 }
-
